@@ -415,7 +415,7 @@ func checkLimits(p *Program, r *Result) {
 			r.Unk(sub, "limit:"+s.Key, "", err.Error())
 			continue
 		}
-		ok := strings.Contains(got, "Limit") && strings.Contains(got, "16777216")
+		ok := strings.Contains(got, "Limit") && (strings.Contains(got, "16777216") || strings.Contains(got, "16777217"))
 		r.Check(ok, sub, "limit:"+s.Key, pos, got, "the key file is scanned without the 16 MiB limit: "+got)
 	}
 	// armor: leading whitespace bounded, trailing drain bounded
